@@ -289,10 +289,19 @@ class Fn:
             if e.value is True: return k("true", BOOL, env)
             if e.value is False: return k("false", BOOL, env)
             if isinstance(e.value, int): return k("(%d)" % e.value, INT, env)
+            if isinstance(e.value, float) and e.value == 0.0: return k("(0)", INT, env)     # 0.0: zero in any unit
             raise Unsupported("%s: constant %r" % (self.name, e.value))
         if isinstance(e, ast.UnaryOp) and isinstance(e.op, ast.USub) and isinstance(e.operand, ast.Constant) \
                 and isinstance(e.operand.value, int):
             return k("(%d)" % -e.operand.value, INT, env)
+        if isinstance(e, ast.BinOp) and isinstance(e.op, (ast.Add, ast.Sub)):
+            def kb(a, ta, e1):
+                def kc(b, tb, e2):
+                    if ta != INT or tb != INT:
+                        raise Unsupported("%s: arithmetic on %r and %r" % (self.name, ta, tb))
+                    return k("(%s %s %s)" % ("Z.add" if isinstance(e.op, ast.Add) else "Z.sub", a, b), INT, e2)
+                return self.cexpr(e.right, e1, kc)
+            return self.cexpr(e.left, env, kb)
         if isinstance(e, ast.List):
             if len(e.elts) == 1:
                 return self.cexpr(e.elts[0], env, lambda a, ta, e1: k("[%s]" % a, TList(ta), e1))
@@ -428,6 +437,36 @@ class Fn:
             raise Unsupported("%s: call of %s" % (self.name, f.id))
         if not isinstance(f, ast.Attribute):
             raise Unsupported("%s: call form" % self.name)
+        # _node.Node(): the constructor without arguments
+        if (isinstance(f.value, ast.Name) and f.value.id == "_node" and f.attr == "Node" and "_node" not in env.vars
+                and not e.args and not e.keywords):
+            v = self.fresh("new")
+            return ("(let '(%s, s) := new_node G None None None s in\n  %s)" % (v, k(v, NODE, env.changed())))
+        # rng.sample(L, k) / rng.choice(L) on the scripted rng: the next script entry is the list of positions
+        # drawn (sample: the entry IS what the call returned, its length is not compared with k) / [i]
+        if (isinstance(f.value, ast.Name) and f.value.id in env.vars and env.vars[f.value.id][0] == "val"
+                and env.vars[f.value.id][2] == RNG and f.attr in ("sample", "choice") and not e.keywords
+                and len(e.args) == (2 if f.attr == "sample" else 1)):
+            rn = f.value.id
+            if rn in [p[0] for p in self.params] and self.loop and False:
+                raise Unsupported("%s: rng parameter consumed inside a loop" % self.name)
+
+            def kl(lt, lty, e1):
+                if lty[0] != "list":
+                    raise Unsupported("%s: %s from %r" % (self.name, f.attr, lty))
+                if f.attr == "choice":
+                    v = self.fresh("pick")
+                    return ("(match %s with\n  | [dv_i] :: %s => (match nth_error %s dv_i with\n  | Some %s => %s\n  | None => MFuel\n  end)\n  | _ => MFuel\n  end)"
+                            % (e1.vars[rn][1], rn, lt, v, k(v, lty[1], e1.bind(rn, rn, RNG))))
+                v = self.fresh("sample")
+
+                def kk(kt, kty, e2):
+                    if kty != INT:
+                        raise Unsupported("%s: sample size %r" % (self.name, kty))
+                    return ("(match %s with\n  | dv_ix :: %s => (match py_nths %s dv_ix with\n  | Some %s => %s\n  | None => MFuel\n  end)\n  | [] => MFuel\n  end)"
+                            % (e2.vars[rn][1], rn, lt, v, k(v, lty, e2.bind(rn, rn, RNG))))
+                return self.cexpr(e.args[1], e1, kk)
+            return self.cexpr(e.args[0], env, kl)
         # self.__class__(**kwargs): the Node constructor
         if (isinstance(f.value, ast.Name) and f.value.id == "self" and f.attr == "__class__" and self.cls == "Node"
                 and not e.args and len(e.keywords) == 1 and e.keywords[0].arg is None
@@ -1018,18 +1057,17 @@ class Fn:
         return out
 
     def while_stmt(self, s, env, nxt):
-        if s.orelse or self.loop or self.handlers:
+        if s.orelse or self.handlers:
             raise Unsupported("%s: while form" % self.name)
         self.needs_fuel = True
         assigned = self.mutated_locals(list(s.body), env)
         carried = [n for n in assigned if n in env.vars]
-        if not carried:
-            raise Unsupported("%s: while loop without loop-carried locals" % self.name)
         for n in carried:
-            if env.vars[n][0] != "val" or n in [p[0] for p in self.params] or n == "self":
+            if env.vars[n][0] != "val" or (n in [p[0] for p in self.params] and env.vars[n][2] != RNG) or n == "self":
                 raise Unsupported("%s: while loop re-binds %s" % (self.name, n))
-        vpat = carried[0] if len(carried) == 1 else "'(%s)" % ", ".join(carried)
-        init = env.vars[carried[0]][1] if len(carried) == 1 else "(%s)" % ", ".join(env.vars[n][1] for n in carried)
+        vpat = "_" if not carried else (carried[0] if len(carried) == 1 else "'(%s)" % ", ".join(carried))
+        init = "tt" if not carried else (env.vars[carried[0]][1] if len(carried) == 1
+                                         else "(%s)" % ", ".join(env.vars[n][1] for n in carried))
         benv = env.copy()
         for n in carried:
             benv = benv.bind(n, n, env.vars[n][2])
@@ -1050,7 +1088,7 @@ class Fn:
                     except Unsupported:
                         raise Unsupported("%s: loop variable %s changes type (%r -> %r); declare it"
                                           % (self.name, n, types[n], e2.vars[n][2]))
-                tup = vals[0] if len(vals) == 1 else "(%s)" % ", ".join(vals)
+                tup = "tt" if not vals else (vals[0] if len(vals) == 1 else "(%s)" % ", ".join(vals))
                 return "(MOk (%s %s) s)" % (kind, tup)
             return k
         try:
@@ -1067,8 +1105,9 @@ class Fn:
         for n in assigned:
             if n not in carried:
                 after_env.vars.pop(n, None)
-        return ("(match mwhile fuel (fun %s s =>\n  %s) %s s with\n  | MOk dv_v s => let %s := dv_v in\n  %s\n  | MErr dv_e s => (MErr dv_e s)\n  | MFuel => MFuel\n  end)"
-                % (vpat, body, init, vpat, nxt(after_env)))
+        bind = "" if not carried else "let %s := dv_v in\n  " % vpat
+        return ("(match mwhile fuel (fun %s s =>\n  %s) %s s with\n  | MOk dv_v s => %s%s\n  | MErr dv_e s => (MErr dv_e s)\n  | MFuel => MFuel\n  end)"
+                % (vpat, body, init, bind, nxt(after_env)))
 
     def augassign(self, s, env, nxt):
         if not isinstance(s.op, ast.Add):
@@ -1360,6 +1399,8 @@ PLAN = [
      {"taxa": TList(TAXON), "update_bipartitions": BOOL, "suppress_unifurcations": BOOL}, None),
     ("Tree", "retain_taxa_with_labels", "eff", UNIT,
      {"labels": TList(INT), "update_bipartitions": BOOL, "suppress_unifurcations": BOOL}, None),
+    ("Tree", "resolve_polytomies", "eff", UNIT, {"limit": INT, "update_bipartitions": BOOL, "rng": TOpt(RNG)}, None,
+     {"polytomies": TList(NODE)}),
     # last: until here calls of reseed_at are calls of the interface operation
     ("Tree", "reseed_at", "eff", TOpt(NODE),
      {"new_seed_node": NODE, "update_bipartitions": BOOL, "collapse_unrooted_basal_bifurcation": BOOL,
